@@ -17,9 +17,9 @@ mv zz_seed_demo_test.go /tmp/zz_demo_$NAME.go
 go test -vet=off -count=1 ./... >/dev/null 2>&1 && LOG="$LOG existing_tests_with_change=pass" || LOG="$LOG existing_tests_with_change=FAIL"
 mv /tmp/zz_demo_$NAME.go zz_seed_demo_test.go
 go test -vet=off -count=3 -run '^TestSeedDemo$' . >/dev/null 2>&1 && LOG="$LOG demo_with_change=PASS(unexpected)" || LOG="$LOG demo_with_change=fails"
-git stash -q
+git diff > /tmp/harvest_cur.patch; git apply -R /tmp/harvest_cur.patch
 go test -vet=off -count=3 -run '^TestSeedDemo$' . >/dev/null 2>&1 && LOG="$LOG demo_without_change=passes" || LOG="$LOG demo_without_change=FAILS(unexpected)"
-git stash pop -q
+git apply /tmp/harvest_cur.patch
 echo "$LOG"
 # run the check against a scratch copy of /repo with the patch applied
 S=$(mktemp -d /tmp/seedrun.XXXXXX)
